@@ -95,14 +95,60 @@ def w_laws(job):
             viol.append({'key': 'C13|%s|%s|%s|%s' % (law, meas, job['gen'].get('name', job['gen']['gen']), info[:160]),
                          'what': 'C13 %s law, %s join, tokenizer %s, tables %s: %s' % (law, meas, spec, job['gen'], info),
                          'detail': {}})
-    res = {}
-    for t in ths:
-        for op in ops:
-            # allow_empty=False: empty-empty pairs are threshold independent and excluded by the statement
-            res[(t, op)], dup = run_join(meas, L, R, tk(), t, op, False)
-            calls += 1
-            if dup:
-                report('uniqueness', 't=%r op=%s: %d duplicate key pairs' % (t, op, dup))
+    def check_laws(res, sweep):
+        nonlocal cases, nontrivial
+        # 2. threshold refinement for the non-equality operators
+        for op in ops[:2]:
+            f = OPS[op]
+            for t1, t2 in itertools.combinations(sorted(ths), 2):
+                lax, strict = (t1, t2) if meas != 'EDIT_DISTANCE' else (t2, t1)
+                cases += 1
+                a, b = res[(lax, op)], res[(strict, op)]
+                band = 1e-4 if meas in ROUNDED else 0.0
+                thr = int(strict) if meas == 'EDIT_DISTANCE' else strict
+                exp = {k: s_ for k, s_ in a.items() if f(s_, thr)}
+                bad = []
+                for k in set(exp) | set(b):
+                    s_ = a.get(k, b.get(k))
+                    if band and abs(s_ - strict) < band:
+                        continue          # possible raw/rounded straddler at the stricter threshold
+                    if (k in exp) != (k in b) or (k in exp and exp[k] != b[k]):
+                        bad.append((k, a.get(k), b.get(k)))
+                if exp:
+                    nontrivial += 1
+                if bad:
+                    report('refinement', '%s sweep, op=%s lax t=%r strict t=%r: (pair, score at lax, score at strict) %r'
+                           % (sweep, op, lax, strict, bad[:3]))
+        # 3. operator partition
+        for t in ths:
+            cases += 1
+            ge, gt, eq = res[(t, ops[0])], res[(t, ops[1])], res[(t, ops[2])]
+            inter = set(gt) & set(eq)
+            union = dict(gt)
+            union.update(eq)
+            if ge:
+                nontrivial += 1
+            if inter or union != ge:
+                report('partition', '%s sweep, t=%r: %s has %d rows, %s %d, %s %d, overlap %r, missing from union %r, '
+                       'extra in union %r' % (sweep, t, ops[0], len(ge), ops[1], len(gt), ops[2], len(eq),
+                                              sorted(inter)[:3], [k for k in ge if k not in union][:3],
+                                              [k for k in union if k not in ge][:3]))
+
+    # the thresholds are swept in both directions: results must not depend on what was joined before
+    sweeps = job.get('sweeps', ['ascending', 'descending'])
+    res = None
+    for sweep in sweeps:
+        cur = {}
+        order = sorted(ths) if sweep == 'ascending' else sorted(ths, reverse=True)
+        for t in order:
+            for op in ops:
+                # allow_empty=False: empty-empty pairs are threshold independent and excluded by the statement
+                cur[(t, op)], dup = run_join(meas, L, R, tk(), t, op, False)
+                calls += 1
+                if dup:
+                    report('uniqueness', 't=%r op=%s: %d duplicate key pairs' % (t, op, dup))
+        check_laws(cur, sweep)
+        res = cur
     # 1. transposition (with allow_empty=True as well)
     for t in job.get('swap_ths', ths):
         for op in ops:
@@ -120,41 +166,6 @@ def w_laws(job):
                     diff = [(k, a[k], sw[k]) for k in a if k in sw and a[k] != sw[k]][:3]
                     report('transposition', 't=%r op=%s allow_empty=%s: only in join(A,B) %r, only in swapped '
                            'join(B,A) %r, score differs %r' % (t, op, ae, only_a, only_b, diff))
-    # 2. threshold refinement for the non-equality operators
-    for op in ops[:2]:
-        f = OPS[op]
-        for t1, t2 in itertools.combinations(sorted(ths), 2):
-            lax, strict = (t1, t2) if meas != 'EDIT_DISTANCE' else (t2, t1)
-            cases += 1
-            a, b = res[(lax, op)], res[(strict, op)]
-            band = 1e-4 if meas in ROUNDED else 0.0
-            thr = int(strict) if meas == 'EDIT_DISTANCE' else strict
-            exp = {k: s for k, s in a.items() if f(s, thr)}
-            bad = []
-            for k in set(exp) | set(b):
-                s = a.get(k, b.get(k))
-                if band and abs(s - strict) < band:
-                    continue          # possible raw/rounded straddler at the stricter threshold
-                if (k in exp) != (k in b) or (k in exp and exp[k] != b[k]):
-                    bad.append((k, a.get(k), b.get(k)))
-            if exp:
-                nontrivial += 1
-            if bad:
-                report('refinement', 'op=%s lax t=%r strict t=%r: (pair, score at lax, score at strict) %r' % (
-                    op, lax, strict, bad[:3]))
-    # 3. operator partition
-    for t in ths:
-        cases += 1
-        ge, gt, eq = res[(t, ops[0])], res[(t, ops[1])], res[(t, ops[2])]
-        inter = set(gt) & set(eq)
-        union = dict(gt)
-        union.update(eq)
-        if ge:
-            nontrivial += 1
-        if inter or union != ge:
-            report('partition', 't=%r: %s has %d rows, %s %d, %s %d, overlap %r, missing from union %r, extra in '
-                   'union %r' % (t, ops[0], len(ge), ops[1], len(gt), ops[2], len(eq), sorted(inter)[:3],
-                                 [k for k in ge if k not in union][:3], [k for k in union if k not in ge][:3]))
     return {'cases': cases, 'calls': calls, 'nontrivial': nontrivial,
             'outcomes': {'law-instances': cases, 'nonempty': nontrivial},
             'extra': {'violations': nviol, 'rows_left': len(L), 'rows_right': len(R)}, 'viol': viol,
@@ -234,6 +245,8 @@ def layers(tier):
         jobs.append({'gen': {'gen': 'corpus', 'name': name, 'head': 400 if quick else 1500}, 'meas': 'EDIT_DISTANCE',
                      'ths': [1, 2] if quick else [0, 1, 2, 3], 'swap_ths': [1], 'tok': ['qg', 2, True, False],
                      'pres': pres})
+    for n_, j_ in enumerate(jobs):
+        j_['sweeps'] = ['descending'] if n_ % 2 else ['ascending']
     Ls.append(Layer('corpora', 'checks.c13:w_laws', jobs,
                     'bundled person tables (name, address) and books tables (title, author: 3022 x 3099 rows, '
                     'sets of up to ~30 tokens) with whitespace and 3-gram tokenizers, all six joins',
